@@ -489,6 +489,41 @@ func genC18(g *Gen) {
 		}
 		g.end()
 	}
+	g.likeByteSiblings()
+}
+
+// likeByteSiblings: literal matching is on whole characters, not on bytes. Cells and pattern bodies are single
+// characters (and pairs) drawn from groups that share their UTF-8 lead byte (é ä É ö: 0xC3), their continuation
+// byte (é U+00E9 / ĩ U+0129 / ũ U+0169: 0xA9), or both ends of a longer sequence (€ ₭, 漢 漣, 𝄞 𝄟); every body
+// under every % form, like and ilike, string and enum column.
+func (g *Gen) likeByteSiblings() {
+	groups := [][]string{{"é", "ä", "É", "ö", "ĩ", "ũ", "e"}, {"€", "₭", "‚", "a€"}, {"漢", "漣", "㼢"}, {"𝄞", "𝄟", "𝅘", "🄞"}}
+	for _, grp := range groups {
+		cells := []*BS{nil}
+		for _, a := range grp {
+			cells = append(cells, bsp(a), bsp("x"+a+"y"), bsp(a+a))
+			for _, b := range grp {
+				if a != b {
+					cells = append(cells, bsp(a+b))
+				}
+			}
+		}
+		g.begin("like byte siblings")
+		f := g.do(Step{Op: "New", Recv: -1, HasOrder: true, ColOrder: bsList([]string{"S", "X"}), HasEnums: true,
+			Enums: []EnumDecl{{Name: toBS("X"), Vals: nil}},
+			Data:  []ColData{{Name: toBS("S"), Kind: "string", Strs: cells}, {Name: toBS("X"), Kind: "string", Strs: cells}}})
+		for _, body := range append(append([]string{}, grp...), grp[0]+grp[1], grp[1]+grp[0]) {
+			for _, pat := range []string{body, "%" + body, body + "%", "%" + body + "%"} {
+				for _, cmp := range []string{"like", "ilike"} {
+					for _, col := range []string{"S", "X"} {
+						cl := Clause{K: "leaf", Col: toBS(col), CmpK: "str", Cmp: cmp, Arg: &Val{T: "string", S: toBS(pat)}}
+						g.do(Step{Op: "Filter", Recv: f, Clause: &cl})
+					}
+				}
+			}
+		}
+		g.end()
+	}
 }
 
 func upperLower(s string, up bool) string {
